@@ -30,6 +30,9 @@ Ctl ==
   \* the sender ends its side while the relay still holds frames for the receiver; after that the receiver only grants
   \* window (its SETTINGS would have to be forwarded to an endpoint that may be gone)
   \/ (\E s \in Streams : q[s] # <<>>) /\ ASendClose /\ hist' = Append(hist, Rec("close", 0, 0, 0, FALSE, "-", 0))
+  \* ... or closes its connection altogether, and the receiver sends a PING some time later
+  \/ (\E s \in Streams : q[s] # <<>>) /\ ASendCloseFull /\ hist' = Append(hist, Rec("close_full", 0, 0, 0, FALSE, "-", 0))
+  \/ sets.gone /\ BSendPing /\ hist' = Append(hist, Rec("bping", 0, 0, 0, FALSE, "-", 0))
   \/ \E s \in Streams \cup {0}, i \in Incs :
         BCtl([t |-> "WU", s |-> s, v |-> i]) /\ hist' = Append(hist, Rec("ctl", s, 0, 0, FALSE, "WU", i))
   \/ ~aClosed /\ \E v \in InitWins : BCtl([t |-> "SI", s |-> 0, v |-> v]) /\ hist' = Append(hist, Rec("ctl", 0, 0, 0, FALSE, "SI", v))
